@@ -240,11 +240,15 @@ theorem combine_old_panics :
     combAddOldPanics 1000000000 (some 1000400000000) 0 1000400000000 = true ∧ (∀ tol t, combAddOldPanics tol none 0 t = true) :=
   Main.combine_old_panics
 
-/-- Every combination the greedy walk emits IS a documented one: its members are distinct positions of the bucket and
-member s satisfies lambda s. (The converse fails: next theorem.) -/
-theorem combine_greedy_sound {α : Type} (m : Nat → α → Bool) (l s : Nat) (rest sel : List α)
-    (h : assign m l s rest = some sel) : sel ∈ assignments m l s rest :=
-  Main.assign_mem_assignments m l s rest sel h
+/-- **The assignment of lambdas to the members of a candidate set is complete and order independent** (the code as
+repaired by the combine `fix:` commit recorded in findings/C10.txt): the backtracking walk returns the first of ALL
+injective assignments "member s satisfies lambda s" — so a candidate set is emitted iff it admits such an assignment,
+whatever the order of the lambdas, and the emitted members are one of the documented assignments. -/
+theorem combine_assignment_complete (m : Nat → BPoint → Bool) (l s : Nat) (rest : List BPoint) :
+    assignBT m l s rest = (assignments m l s rest).head? ∧
+    ((assignBT m l s rest).isSome = true ↔ assignments m l s rest ≠ []) ∧
+    (∀ sel, assignBT m l s rest = some sel → sel ∈ assignments m l s rest) :=
+  ⟨assignBT_eq_head m l s rest, assignBT_isSome_iff m l s rest, fun sel h => assignBT_mem m l s rest sel h⟩
 
 /-- The candidate sets combine walks through are exactly the k-element sublists of the bucket (by position, in order):
 no point twice in a combination, no combination twice. -/
@@ -271,12 +275,14 @@ example :
     (∀ n, n ≤ 4 → combCount n c.exprs.length ≤ c.max) ∧ (combineStream c [mk 1 0, mk 2 0, mk 3 0, mk 4 1]).length = 3 := by
   decide
 
-/-- Recorded finding `combine-greedy-assignment`: with lambdas (TRUE, "h" == 'a') the pair {h=a, h=b} admits the
-assignment (b ↦ TRUE, a ↦ "h"=='a') but the greedy walk gives `a` to the first lambda and finds nobody for the second:
-nothing is emitted (corpus/C10/finding-combine-greedy-assignment.ops). -/
-theorem combine_greedy_misses_a_combination :
+/-- Counterexample (the defect repaired by the combine `fix:` commit): with lambdas (TRUE, "h" == 'a') the pair {h=a, h=b}
+admits the assignment (b ↦ TRUE, a ↦ "h"=='a'), but the greedy first-match walk of snapshot ef0888e gave `a` to the first
+lambda, found nobody for the second and emitted nothing; the repaired walk emits the pair
+(replayed on the real code by corpus/C10/combine-greedy-assignment.ops). -/
+theorem combine_old_greedy_misses_a_combination :
     ∃ (c : CombineCfg) (bucket : List BPoint), combineGreedyMisses c bucket = true ∧
-      combineBucket c "m" [] false bucket = some [] :=
+      assign (combMatch c) 2 0 bucket = none ∧ (assignBT (combMatch c) 2 0 bucket).isSome = true ∧
+      (combineBucket c "m" [] false bucket).map List.length = some 1 :=
   ⟨{ exprs := [.lit (.bool true), .bin .eq (.ref "h") (.lit (.str "a"))], names := ["A", "B"], delim := ".", tol := 0, max := 1000000 },
    [{ tags := [("h", "a")], fields := [("v", .int 1)], time := 0 }, { tags := [("h", "b")], fields := [("v", .int 2)], time := 0 }],
    by decide⟩
